@@ -97,6 +97,9 @@ BASE_PROFILE = {
     "analyze_p": 0.15,
     "multi_thr_p": 0.5,
     "small_ids": False,
+    "merge_p": 0.3,
+    "dup_labels_p": 0.3,
+    "radii_list_p": 0.3,
 }
 
 PROFILES = {
@@ -111,7 +114,8 @@ PROFILES = {
     "c05": {
         "tasks": {"tracking": 1},
         "clean_p": 0.3,
-        "force": ["id_new", "id_swap"],
+        "force": ["id_new", "id_swap", "id_steal", "label_alias", "miss"],
+        "merge_p": 0.45,
         "fault_pool": ["miss", "ghost", "label_flip", "label_alias", "pose_noise", "id_new", "id_swap", "id_dup", "id_steal", "drop",
                        "reorder", "scene_query", "dup_detection"],
         "small_ids": True,
@@ -137,11 +141,11 @@ PROFILES = {
         "twins": ["frame"],
         "max_samples": 8,
     },
-    "c03": {"narrow_crit_p": 0.6, "fp_gt_p": 0.2, "tasks": {"detection": 4, "tracking": 3, "fp_validation": 3}},
+    "c03": {"merge_p": 0.4, "dup_labels_p": 0.5, "narrow_crit_p": 0.6, "fp_gt_p": 0.2, "tasks": {"detection": 4, "tracking": 3, "fp_validation": 3}},
     "c16": {"far_p": 0.15, "raw_p": 0.3, "sibling_p": 0.5, "ego_tilt_p": 0.5, "max_samples": 24, "max_actors": 16, "enable_p": 0.1, "tasks": {"detection": 3, "tracking": 3, "fp_validation": 1}},
     "c19": {"sibling_p": 0.35, "analyze_p": 1.0, "force": ["analyze"], "fp_gt_p": 0.15, "max_samples": 10,
             "tasks": {"detection": 5, "tracking": 3, "fp_validation": 2}},
-    "c01": {"force": ["ghost", "dup_detection"], "contested_p": 0.7, "tasks": {"detection": 5, "tracking": 2, "fp_validation": 3},
+    "c01": {"merge_p": 0.45, "dup_labels_p": 0.5, "radii_list_p": 0.55, "force": ["ghost", "dup_detection"], "contested_p": 0.7, "tasks": {"detection": 5, "tracking": 2, "fp_validation": 3},
             "fp_gt_p": 0.2},
     "c04": {"force": ["ghost", "label_flip", "conf_near_tie"], "multi_thr_p": 0.8, "tasks": {"detection": 3, "tracking": 2}},
     "c08": {"force": ["dup", "pf_change", "pose_noise"], "multi_thr_p": 1.0, "tasks": {"detection": 3, "tracking": 2}},
@@ -415,9 +419,9 @@ def _pf_spec(rng, cfg, factor=1.0):
 
 def _make_config(rng, prof, world):
     task = world["_task"]
-    merge = rng.random() < 0.3
+    merge = rng.random() < prof["merge_p"]
     pool = ["car", "bicycle", "pedestrian", "unknown"] if merge else ["car", "truck", "bus", "bicycle", "motorbike", "pedestrian", "unknown"]
-    if merge and rng.random() < 0.3:
+    if merge and rng.random() < prof["dup_labels_p"]:
         # merging switched on while the target list still names the unmerged classes: several entries collapse onto one
         # label (legal; the first entry of a label is the one whose thresholds apply)
         pool = ["car", "truck", "bus", "bicycle", "motorbike", "pedestrian", "unknown"]
@@ -456,12 +460,12 @@ def _make_config(rng, prof, world):
     else:
         cfg["policy"] = rng.choice(["DEFAULT", "ALLOW_UNKNOWN", "ALLOW_ANY", "allow_unknown"])
     r = rng.random()
-    if r < 0.35:
-        cfg["radii"] = None
-    elif r < 0.7:
+    if r < prof["radii_list_p"]:
+        cfg["radii"] = [_r(rng.uniform(0.5, 8.0), 2) for _ in range(n)]
+    elif r < prof["radii_list_p"] + 0.35:
         cfg["radii"] = _r(rng.uniform(0.5, 8.0), 2)
     else:
-        cfg["radii"] = [_r(rng.uniform(0.5, 8.0), 2) for _ in range(n)]
+        cfg["radii"] = None
     if task == "detection" or rng.random() < 0.3:
         cfg["min_pts"] = rng.choice([0, 0, [rng.choice([0, 1, 5, 20]) for _ in range(n)]])
     else:
@@ -589,6 +593,7 @@ def make_plan(seed, run, profile_name, clean=None, force=None):
     base_conf = {ai: rng.uniform(0.2, 0.99) for ai in range(len(actors))}
     next_fresh = [0]
     near_tie_carry = [None]
+    seen_prev = set()
 
     def fresh_id():
         next_fresh[0] += 1
@@ -648,7 +653,12 @@ def make_plan(seed, run, profile_name, clean=None, force=None):
         stolen = None
         if tracking and len(live) >= 2 and fire("id_steal"):
             # the tracker loses target A and its track id drifts onto target B (B's own id is dropped)
-            a_lost, b_takes = rng.sample(live, 2)
+            reacq = [x for x in live if x not in seen_prev]      # targets the tracker did not report in the previous tick
+            if reacq and rng.random() < 0.8:
+                b_takes = rng.choice(reacq)
+                a_lost = rng.choice([x for x in live if x != b_takes])
+            else:
+                a_lost, b_takes = rng.sample(live, 2)
             track_id[b_takes] = track_id[a_lost]
             track_id[a_lost] = fresh_id()
             stolen = a_lost
@@ -736,6 +746,7 @@ def make_plan(seed, run, profile_name, clean=None, force=None):
                     note("id_dup")
                 objs.append(d)
                 note("dup_detection")
+        seen_prev = set(o["src"] for o in objs if o["src"] >= 0)
         n_ghost = 0
         while fire("ghost") and n_ghost < 4:
             n_ghost += 1
